@@ -68,7 +68,9 @@ class GroupingService:
             DataFrame with duplicate values replaced with null
         """
         # Create a mask for rows where the value is different from the previous row
-        is_first_occurrence = (df[column] != df[column].shift(1)) | (
+        # ne_missing: null is a value distinct from every non-null (a plain != yields
+        # null next to a null and would blank the first value after it)
+        is_first_occurrence = (df[column].ne_missing(df[column].shift(1))) | (
             pl.int_range(df.height) == 0
         )  # First row is always shown
 
@@ -99,7 +101,9 @@ class GroupingService:
         Returns:
             DataFrame with hierarchical value suppression
         """
-        result_df = df.clone()
+        # All conditions are evaluated against the unsuppressed input frame and
+        # applied in one step: a level must see the real values of its parents.
+        suppressed_columns = []
 
         for i, column in enumerate(group_by):
             # For hierarchical grouping, a value should be shown if:
@@ -114,10 +118,12 @@ class GroupingService:
 
             # Higher-level columns changed condition
             for higher_col in group_by[:i]:
-                conditions.append(pl.col(higher_col) != pl.col(higher_col).shift(1))
+                conditions.append(
+                    pl.col(higher_col).ne_missing(pl.col(higher_col).shift(1))
+                )
 
             # This column changed condition
-            conditions.append(pl.col(column) != pl.col(column).shift(1))
+            conditions.append(pl.col(column).ne_missing(pl.col(column).shift(1)))
 
             # Combine all conditions with OR
             should_show = conditions[0]
@@ -128,9 +134,9 @@ class GroupingService:
             suppressed_values = (
                 pl.when(should_show).then(pl.col(column)).otherwise(None)
             )
-            result_df = result_df.with_columns(suppressed_values.alias(column))
+            suppressed_columns.append(suppressed_values.alias(column))
 
-        return result_df
+        return df.with_columns(suppressed_columns)
 
     def restore_page_context(
         self,
